@@ -428,7 +428,9 @@ impl OutputFormat for IcyDraw {
                                         let (_, [layer_num, _chunk]) = m.extract();
                                         let layer_num = layer_num.parse::<usize>()?;
 
-                                        let layer = &mut result.layers[layer_num];
+                                        let Some(layer) = result.layers.get_mut(layer_num) else {
+                                            return Err(anyhow::anyhow!("layer continuation for unknown layer {layer_num}"));
+                                        };
                                         match layer.role {
                                             crate::Role::Normal => {
                                                 let mut o = 0;
@@ -438,6 +440,9 @@ impl OutputFormat for IcyDraw {
                                                         break;
                                                     }
                                                     for x in 0..layer.get_width() {
+                                                        if o + 2 > bytes.len() {
+                                                            return Err(anyhow::anyhow!("data length out ouf bounds"));
+                                                        }
                                                         let mut attr = u16::from_le_bytes(bytes[o..(o + 2)].try_into().unwrap());
                                                         o += 2;
                                                         if attr == crate::attribute::INVISIBLE_SHORT {
@@ -455,6 +460,9 @@ impl OutputFormat for IcyDraw {
                                                             continue;
                                                         }
 
+                                                        if o + if is_short { 4 } else { 14 } > bytes.len() {
+                                                            return Err(anyhow::anyhow!("data length out ouf bounds"));
+                                                        }
                                                         let (ch, fg, bg, font_page) = if is_short {
                                                             let ch = bytes[o] as u32;
                                                             o += 1;
@@ -496,7 +504,9 @@ impl OutputFormat for IcyDraw {
                                             crate::Role::PastePreview => todo!(),
                                             crate::Role::PasteImage => todo!(),
                                             crate::Role::Image => {
-                                                layer.sixels[0].picture_data.extend(&bytes);
+                                                if let Some(sixel) = layer.sixels.first_mut() {
+                                                    sixel.picture_data.extend(&bytes);
+                                                }
                                                 continue;
                                             }
                                         }
